@@ -776,6 +776,23 @@ impl<T: PartialEq> PartialEq for Items<T> {
     }
 }
 
+/// Non-zero-sized value with an empty wire encoding.
+#[derive(Clone, Debug, PartialEq, Eq)]
+pub struct EmptyMsg(pub u64);
+impl Encode for EmptyMsg {
+    fn encode(&self, _bytes: &mut Vec<u8>) -> Result<(), CodecError> {
+        Ok(())
+    }
+    fn encoded_len(&self) -> Option<usize> {
+        Some(0)
+    }
+}
+impl Decode for EmptyMsg {
+    fn decode(_bytes: &mut Cursor<&[u8]>) -> Result<Self, CodecError> {
+        Ok(EmptyMsg(0))
+    }
+}
+
 fn all_consumed<T>(c: &Cursor<&[u8]>, bytes: &[u8], v: T) -> Result<T, CodecError> {
     if c.position() as usize != bytes.len() {
         return Err(CodecError::BytesLeftOver(bytes.len() - c.position() as usize));
@@ -1011,6 +1028,9 @@ fn primitives(cat: &mut Catalogue, pf: &Profile) {
     );
     // generic vector helpers with items of encoded size 0, 1 and 8
     items_entries::<()>(cat, "()", 0, |_| ());
+    // a NON-zero-sized Rust type whose wire encoding is empty (like a Prio3 public share without joint
+    // randomness or Poplar1's round-two verifier message)
+    items_entries::<EmptyMsg>(cat, "EmptyMsg", 0, |_| EmptyMsg(0));
     items_entries::<u8>(cat, "u8", 1, |i| (i * 41 + 3) as u8);
     items_entries::<u64>(cat, "u64", 8, |i| (i as u64).wrapping_mul(0x9E3779B97F4A7C15) ^ 0xff00);
 }
